@@ -73,6 +73,10 @@ theorem fci_cancelTimer_other (s : Stack) (own : Cb → Bool) (t : Option Nat) (
 @[simp] theorem fci_with_findLog (s : Stack) (x : List (Nat × Nat)) : fci { s with findLog := x } = fci s := rfl
 @[simp] theorem fci_with_findMarks (s : Stack) (x : List (Nat × Nat)) : fci { s with findMarks := x } = fci s := rfl
 @[simp] theorem fci_with_ansLog (s : Stack) (x : List (Nat × Addr × Nat × Nat)) : fci { s with ansLog := x } = fci s := rfl
+@[simp] theorem fci_with_lisLog (s : Stack) (x : List (LId × Bool × SvcKey × Addr)) : fci { s with lisLog := x } = fci s := rfl
+@[simp] theorem fci_logLis (s : Stack) (id : LId) (o : Bool) (k : SvcKey) (a : Addr) : fci (s.logLis id o k a) = fci s := rfl
+@[simp] theorem fci_with_lisDup (s : Stack) (x : Bool) : fci { s with lisDup := x } = fci s := rfl
+@[simp] theorem fci_markDup (s : Stack) (d : Bool) : fci (s.markDup d) = fci s := rfl
 @[simp] theorem fci_logAnswer (s : Stack) (i : Nat) (a : Addr) (d : Nat) : fci (s.logAnswer i a d) = fci s := rfl
 @[simp] theorem fci_markFind (s : Stack) (n : Nat) : fci (s.markFind n) = fci s := rfl
 @[simp] theorem fci_with_offLog (s : Stack) (x : List (Nat × OEv × Nat)) : fci { s with offLog := x } = fci s := rfl
@@ -305,13 +309,13 @@ theorem fci_stepOffer (s : Stack) (tid : Tid) (t : TaskSt) (i : Nat) (h : tid.1 
   rw [foldl_pres fci _ (fun s p => by frame_cases)]
 
 @[simp] theorem fci_watchService (s : Stack) (f : Service) (l : Listener) : fci (s.watchService f l) = fci s := by
-  unfold watchService; simp only []; rw [fci_replay]; rfl
+  unfold watchService; simp only []; rw [fci_markDup, fci_replay]; rfl
 @[simp] theorem fci_stopWatchService (s : Stack) (f : Service) (l : Listener) : fci (s.stopWatchService f l) = fci s := by
   unfold stopWatchService; simp only []; split
   · simp
   · rw [fci_replay]; rfl
 @[simp] theorem fci_watchAllServices (s : Stack) (id : LId) : fci (s.watchAllServices id) = fci s := by
-  unfold watchAllServices; rw [fci_replay]; rfl
+  unfold watchAllServices; rw [fci_markDup, fci_replay]; rfl
 @[simp] theorem fci_stopWatchAllServices (s : Stack) (id : LId) : fci (s.stopWatchAllServices id) = fci s := by
   unfold stopWatchAllServices; split
   · simp
